@@ -671,7 +671,7 @@ func genRandom(rng *mon.RNG) ([]op, bool) {
 func TestCheck(t *testing.T) {
 	rec = mon.Open("C06")
 	defer rec.Close()
-	rec.Note("rule", "a case is one history run against the real Processor in a synctest bubble: (directed) the loop parked at each hook point x hit 1-2 x each placed operation kind (pairs of kinds as well); (random) 4-24 seeded Enqueue/Dequeue/Sleep/Close operations in lock-step with seeded hook parking; (racing) 2-4 goroutines issuing operations at the same virtual instants. Non-trivial = at least one callback was observed or an item was removed before running; distinct = distinct operation list.")
+	rec.Note("rule", "a case is one history run against the real Processor in a synctest bubble: (directed) the loop parked at each hook point x hit 1-2 x each placed operation kind (pairs of kinds as well); (random) 4-24 seeded Enqueue/Dequeue/Sleep/Close operations in lock-step with seeded hook parking; (racing) 2-4 goroutines issuing operations at the same virtual instants. (gated) a callback held open while Dequeue / Enqueue / Close and a second, overlapping Close are issued; (two parks) the loop parked at a first hook point, released to a second one, operations placed at both; (backlog) callbacks gated while several items fall due and more are added, order judged after release: an item due earlier whose Enqueue returned before the previous callback ended runs first; (big queue) queues of 7-16 items with 3-8 seeded removals, so that the heap is deep enough for its sift paths; (rearm) items whose due time is mutable: the callback re-enqueues its own item, the owner takes an item out, moves it later or earlier and puts it back, or replaces it in place; each run is compared with the list of due times the item has had. Non-trivial = at least one callback was observed or an item was removed before running; distinct = distinct operation list.")
 	rec.Note("require", []string{"park.loop.start", "park.loop.empty", "park.loop.peeked", "park.loop.armed", "park.loop.fired", "park.exec.popped", "callbacks", "callback.reentrant_enqueue", "callback.reentrant_dequeue", "enq.far_future_item", "placed.close", "placed.enq", "placed.deq", "racing.same_instant_ops", "gated.close_waited_for_callback", "placed.second_close", "twoloops.both_parked", "random.big_queue_histories", "rearm.same_object_enqueued_again_from_its_callback", "rearm.same_object_put_back_with_a_new_time", "rearm.scenarios_ok.callback-rearms-itself", "rearm.scenarios_ok.owner-takes-out-moves-later-puts-back", "rearm.scenarios_ok.owner-takes-out-moves-earlier-puts-back", "rearm.scenarios_ok.owner-replaces-in-place-later"})
 	ps := plans()
 	rec.Planned(len(ps))
